@@ -131,7 +131,7 @@ Print Assumptions C12_log_defaults.
 (* ---------------------------------------------------------------- inherited base-class defaults *)
 (* For ANY subclass that only defines one()/zero() (g1, g0 arbitrary non-NaN values):
    is_zero(zero()) holds; normalize(a, z) is `a` exactly when is_one(z), else OperationNotSupported;
-   the remaining defaults are the documented ones.  (is_one(one()) itself: PropsIsOne.v.) *)
+   the remaining defaults are the documented ones. *)
 Theorem C12_defaults_inherited : forall g1 g0 a z, proper g0 ->
   (t <- generic_zero Rops g1 g0 ;; generic_is_zero Rops g1 g0 t) = Ok true /\
   generic_normalize Rops g1 g0 a z =
@@ -146,10 +146,19 @@ Proof.
 Qed.
 Print Assumptions C12_defaults_inherited.
 
+(* is_one(one()) and normalize(a, one()) = a for every such subclass (refuted before repair f43b2ec,
+   when Semiring.is_one compared the value with the bound method `self.one`) *)
+Theorem C12_defaults_is_one_inherited : forall g1 g0 a, proper g1 ->
+  (o <- generic_one Rops g1 g0 ;; generic_is_one Rops g1 g0 o) = Ok true /\
+  (o <- generic_one Rops g1 g0 ;; generic_normalize Rops g1 g0 a o) = Ok a.
+Proof. exact (fun g1 g0 a H => conj (generic_is_one_one g1 g0 H) (generic_normalize_one g1 g0 a H)). Qed.
+Print Assumptions C12_defaults_is_one_inherited.
+
 Theorem C12_sym_defaults :
+  (o <- sym_one Rops ;; sym_is_one Rops o) = Ok true /\
   (z <- sym_zero Rops ;; sym_is_zero Rops z) = Ok true /\
   (forall a, (o <- sym_one Rops ;; sym_normalize Rops a o) = Ok a).
-Proof. exact (conj sym_is_zero_zero sym_normalize_one). Qed.
+Proof. exact (conj sym_is_one_one (conj sym_is_zero_zero sym_normalize_one)). Qed.
 Print Assumptions C12_sym_defaults.
 
 (* ---------------------------------------------------------------- non-vacuity *)
